@@ -283,7 +283,7 @@ def min_col(typ, depth):
 
 Bounds = namedtuple("Bounds", "max_funcs max_decls max_body max_nest max_group max_comments max_typeblocks wide")
 QUICK = Bounds(2, 2, 5, 2, 2, 1, 2, False)
-THOROUGH = Bounds(3, 3, 8, 3, 2, 1, 2, True)
+THOROUGH = Bounds(2, 3, 7, 3, 2, 1, 2, True)
 
 Top = namedtuple("Top", "phase gcount closed gcol nfuncs ncomments lastc")
 Fn = namedtuple("Fn", "ret stage ndecl dcol nlines stack can_else nst names")
